@@ -513,7 +513,7 @@ Qed.
 Lemma spec_split_aux_raw : forall p cur, ~ In 47 cur ->
   spec_split_aux cur p = raw_segments (rev cur ++ p).
 Proof.
-  induction p as [|c p IH]; intros cur Hn; cbn [spec_split_aux].
+  induction p as [|c p IH]; intros cur Hn; cbn [spec_split_aux]; rewrite <- ?rev_alt.
   - rewrite app_nil_r.
     assert (Hn' : ~ In 47 (rev cur)) by (rewrite <- in_rev; exact Hn).
     rewrite (raw_segments_no_slash _ Hn').
